@@ -6,6 +6,7 @@ a decidable checker `lexOK` for the state-threaded condition `LexWFs` of a whole
 -/
 import Kap.Proofs.C13LexState
 import Kap.Proofs.C13Decode
+import Kap.Proofs.C13DurNeg
 
 namespace Kap.C13
 open Kap.C13.Gen
@@ -55,9 +56,7 @@ theorem atomRaws_num_of_digit (n : Num) (c : Char) (t : List Char) (ht : atomTex
     (hc : isDigit c = true) : atomRaws (.num n) = [.number (String.ofList (c :: t))] := by
   have hne : c ≠ '-' := digit_ne c '-' hc (by decide)
   simp only [atomRaws, ht]
-  split
-  · rename_i heq; simp at heq; exact absurd heq.1 hne
-  · rfl
+  exact splitMinus_other _ c t hne
 
 /-- a number whose printed text is all digits, or digits `.` digits -/
 theorem atomLexIn_num_of_text (n : Num) (txt : List Char) (ht : atomText (.num n) = txt)
@@ -99,7 +98,7 @@ theorem atomLexIn_int10_neg (n : Nat) (b : Bool) : AtomLexIn b (.num (.int 10 (I
   refine ⟨?_, ⟨'-', _, ht, by decide, by decide, by decide⟩⟩
   have hr : atomRaws (.num (.int 10 (Int.negSucc n))) =
       [.op .TokenMinus, .number (String.ofList (Nat.toDigits 10 (n + 1)))] := by
-    simp [atomRaws, ht]
+    simp only [atomRaws, ht, splitMinus_minus]
   rw [hr, ht]
   obtain ⟨k, hk, hk2⟩ := hl false
   refine ⟨k + 1, by simp; omega, ?_⟩
@@ -163,7 +162,7 @@ theorem atomLexIn_flt_neg (c : String) (t : List Char) (hc : fltNegText c.toList
   rw [← hs] at hl
   refine ⟨?_, ⟨'-', _, ht, by decide, by decide, by decide⟩⟩
   have hr : atomRaws (.num (.flt c)) = [.op .TokenMinus, .number (String.ofList t)] := by
-    simp [atomRaws, ht]
+    simp only [atomRaws, ht, splitMinus_minus]
   rw [hr, ht]
   obtain ⟨k, hk, hk2⟩ := hl false
   refine ⟨k + 1, by simp; omega, ?_⟩
@@ -194,8 +193,10 @@ theorem atomLexIn_dur_of_text (ns : Int) (lit : String) (ds u : List Char) (ht :
     (hd : digitsOK ds) (hu : durUnitOK u) (b : Bool) : AtomLexIn b (.dur ns lit) := by
   obtain ⟨h1, h2⟩ := lexes_dur ds u hd hu
   refine ⟨?_, ?_⟩
-  · have : atomRaws (.dur ns lit) = [.duration (String.ofList (ds ++ u))] := by
-      simp [atomRaws, atomRaw, ht]
+  · obtain ⟨c, t, hct, hc⟩ := digitsOK_head hd
+    have : atomRaws (.dur ns lit) = [.duration (String.ofList (ds ++ u))] := by
+      simp only [atomRaws, ht, hct, List.cons_append]
+      exact splitMinus_other _ c _ (digit_ne c '-' hc (by decide))
     rw [this, ht]
     exact h1 b
   · rw [ht]; exact (headOK2_of_headOK h2).1
@@ -209,6 +210,28 @@ theorem atomLexIn_dur_value (ns : Int) (lit : String) (hl : lit.isEmpty = true) 
   refine atomLexIn_dur_of_text ns lit _ u ht (digitsOK_toDigits 10 (Or.inr rfl) n) ?_ b
   unfold durUnitOK
   rcases hunit with h | h | h | h | h | h | h <;> simp [h]
+
+/-- a negative duration printed from its value (built in code): two tokens, unary minus and the duration -/
+theorem atomLexIn_dur_neg (ns : Int) (lit : String) (hl : lit.isEmpty = true) (h0 : ns < 0) (hu : ns % 1000 = 0)
+    (b : Bool) : AtomLexIn b (.dur ns lit) := by
+  obtain ⟨n, u, k, hform, _, _, hunit⟩ := formatDuration_form (-ns) (by omega) (by omega)
+  have ht : atomText (.dur ns lit) = '-' :: (Nat.toDigits 10 n ++ u) := by
+    simp [atomText, fmtAtom, hl, formatDuration_neg ns h0, hform]
+  have hd := digitsOK_toDigits 10 (Or.inr rfl) n
+  have hu' : durUnitOK u := by
+    unfold durUnitOK
+    rcases hunit with h | h | h | h | h | h | h <;> simp [h]
+  obtain ⟨hlx, _⟩ := lexes_dur _ u hd hu'
+  refine ⟨?_, ⟨'-', _, ht, by decide, by decide, by decide⟩⟩
+  have hr : atomRaws (.dur ns lit) = [.op .TokenMinus, .duration (String.ofList (Nat.toDigits 10 n ++ u))] := by
+    simp only [atomRaws, ht, splitMinus_minus]
+  rw [hr, ht]
+  obtain ⟨k', hk, hk2⟩ := hlx false
+  refine ⟨k' + 1, by simp only [List.length_cons]; omega, ?_⟩
+  intro f rest acc hrest
+  have := hk2 f rest (.op .TokenMinus :: acc) hrest
+  rw [← Nat.add_assoc, List.cons_append, lex_minus, this]
+  simp
 
 /-- a duration with its literal kept (parser output): digits and any unit the lexer knows, incl. `µ` and `ms` -/
 theorem atomLexIn_dur_lit (ns : Int) (lit : String) (hl : lit.isEmpty = false) (h : durTextOK lit.toList = true)
@@ -308,7 +331,7 @@ def atomLexOK (b : Bool) : Atom → Bool
   | .str l t => if useTriple l.toList t then tripleSafe 3 l.toList else !endsWithBackslash l.toList
   | .num (.int base v) => decide (base = 10) || (decide (base = 8) && decide (0 ≤ v))
   | .num (.flt c) => fltTextOK c.toList || ((fltNegText c.toList).map fltTextOK).getD false
-  | .dur ns lit => if lit.isEmpty then decide (0 ≤ ns) && decide (ns % 1000 = 0) else durTextOK lit.toList
+  | .dur ns lit => if lit.isEmpty then decide (ns % 1000 = 0) else durTextOK lit.toList
   | .rx re lit => !b && rxHeadOK (regexLiteral re lit).toList && rxScanOK (regexLiteral re lit).toList
   | .star => false
 
@@ -349,8 +372,10 @@ theorem atomLexOK_sound (b : Bool) (a : Atom) (h : atomLexOK b a = true) : AtomL
     simp only [atomLexOK] at h
     split at h
     · rename_i hl
-      simp only [Bool.and_eq_true, decide_eq_true_eq] at h
-      exact atomLexIn_dur_value ns lit hl h.1 h.2 b
+      simp only [decide_eq_true_eq] at h
+      by_cases h0 : 0 ≤ ns
+      · exact atomLexIn_dur_value ns lit hl h0 h b
+      · exact atomLexIn_dur_neg ns lit hl (by omega) h b
     · rename_i hl
       exact atomLexIn_dur_lit ns lit (by simpa using hl) h b
   | rx re lit =>
